@@ -50,7 +50,8 @@ def eq_consumer_fields(cond):
 
 
 def run(ctx):
-    configs = ["A"] if ctx.tier == "quick" else ["A", "B", "C"]
+    # QUILL_X86ARCH compiles extra code into the queue's commit functions (cache-line flushes): config C belongs to the quick tier too
+    configs = ["A", "C"] if ctx.tier == "quick" else ["A", "B", "C"]
     for cfg in configs:
         facts = ctx.facts("core.cpp", cfg)
         classes = facts.cls_all("quill::detail::BoundedSPSCQueueImpl", cfg)
